@@ -178,6 +178,10 @@ func malformed(s *srvh.Srv, kind string) *pdpb.BootstrapRequest {
 		r.Region.Peers[0].Id = 0
 	case "wrong-cluster-id":
 		r.Header.ClusterId++
+	case "zero-cluster-id":
+		r.Header.ClusterId = 0
+	case "no-header": // carries no cluster id at all, i.e. not this cluster's
+		r.Header = nil
 	}
 	return r
 }
@@ -314,7 +318,7 @@ func clusterIDRace(k, pre int, tiers, name string) *explore.Scenario {
 }
 
 func main() {
-	bad := []string{"no-store", "zero-store-id", "no-region", "start-key", "end-key", "two-peers", "peer-store-mismatch", "zero-peer-id", "wrong-cluster-id"}
+	bad := []string{"no-store", "zero-store-id", "no-region", "start-key", "end-key", "two-peers", "peer-store-mismatch", "zero-peer-id", "wrong-cluster-id", "zero-cluster-id", "no-header"}
 	l := []*explore.Scenario{
 		concurrent(2, nil, 2, "quick", "2-concurrent"),
 		concurrent(3, nil, 2, "quick", "3-concurrent"),
